@@ -944,7 +944,12 @@ def ac9_connected_copies(fc: FnCls, R: RuleResult) -> int:
                 continue        # e.g. torch.zeros(...).requires_grad_(): a fresh constant, not a copy of an input
             n += 1
             what = "%s = copy of `%s` via .%s().requires_grad_()" % (norm_stmt(enclosing_stmt(c), 70), ast.unparse(e), "().".join(reversed(chain)))
-            if "detach" in chain and not _under_not_grad_enabled(c, bw.node, flags):
+            par = getattr(c, "_parent", None)
+            if isinstance(par, ast.DictComp) or isinstance(par, ast.Dict):
+                R.bad(bw, enclosing_stmt(c), "the differentiable copies are collected in a mapping keyed by the tensor: a tensor that occupies two parameter slots "
+                      "(passed explicitly and held by the object) gets ONE copy for both slots, so its gradient is the sum returned twice and the per-slot "
+                      "gradients are wrong; make one copy per slot", what=what)
+            elif "detach" in chain and not _under_not_grad_enabled(c, bw.node, flags):
                 R.bad(bw, enclosing_stmt(c), "a differentiable copy made for the pull-back is detached from the graph: with create_graph=True the "
                       "gradient loses its dependence on `%s` (use .clone().requires_grad_(), or guard with `not torch.is_grad_enabled()`)" % ast.unparse(e), what=what)
             else:
